@@ -119,6 +119,19 @@ for vs in _combos(3, True):
     for fn in (H.trans, H.union_least, H.inter_greatest, H.eq_trans):
         UNITS.append(Law(fn, 3, vs))
 
+
+# == is an equivalence consistent with the hash for ALL kinds, not only within one version: symmetry and `== implies equal hashes` over every
+# combination of declared versions (unversioned kinds, whose version is inferred from their features, included) WITHOUT the same-version hypothesis
+class AnyVersionLaw(Law):
+    def __init__(self, fn, versions):
+        Law.__init__(self, fn, 2, versions, same_version=False, doc=fn.__name__ + " for kinds of any (declared or inferred) versions")
+        self.name = f"{fn.__name__}[any versions: {','.join(str(v) for v in versions)}]"
+
+
+for vs in itertools.product(VERSIONS, repeat=2):
+    for fn in (H.eq_hash, H.eq_sym):
+        UNITS.append(AnyVersionLaw(fn, vs))
+
 # cross-version clauses: "comparing kinds of different versions upgrades the older one, and
 # upgrading preserves <=": transitivity over *all* version combinations, plus monotonicity of each
 # real upgrade function on raw feature sets
